@@ -28,7 +28,14 @@ def scalings(rng, m):
 def one_linear(ctx: Ctx, spec, dtype):
     rng = ctx.rng
     m = rng.choice([2, 3, 4])
-    if spec.name == "ConFIG":
+    if spec.name == "ConFIG" and rng.random() < 0.4:
+        # more objectives than parameters (or dependent rows): the common direction then has a NEGATIVE inner product
+        # with some rows, and the total length sum_i c_i <j_i, u> changes sign with c — still linear in c
+        m = rng.choice([3, 4, 5])
+        n = rng.choice([2, m - 1])
+        J = m_int(rng, m, n, kind="plain")
+        ctx.count("family", "ConFIG:more-rows-than-columns")
+    elif spec.name == "ConFIG":
         n = rng.choice([m, m + 1, m + 2])
         J = well_conditioned(rng, m, n)
     else:
@@ -49,6 +56,18 @@ def one_linear(ctx: Ctx, spec, dtype):
     A = spec.make(m, dtype, pv)
     c1, c2, a, b = scalings(rng, m)
     seed = rng.randrange(10 ** 6)
+    if spec.name == "ConFIG" and len(J) > len(J[0]):
+        # steer the scalings: c1 stresses the rows the common direction agrees with, c2 the rows it opposes, so that the
+        # total length sum_i c_i <j_i, u> is positive for one and negative for the other
+        st0, x0 = attempt(A, Jt.to(dtype), seed)
+        if st0 == "ok" and float(x0.abs().max()) > 0:
+            pr = Jt @ x0.double()
+            if float(pr.min()) < 0 < float(pr.max()):
+                hi = lambda: 10.0 ** rng.uniform(0.5, 2)          # noqa: E731
+                lo = lambda: 10.0 ** rng.uniform(-3, -1.5)        # noqa: E731
+                c1 = torch.tensor([hi() if float(v) > 0 else lo() for v in pr], dtype=torch.float64)
+                c2 = torch.tensor([lo() if float(v) > 0 else hi() for v in pr], dtype=torch.float64)
+                ctx.count("family", "ConFIG:sign-changing-total")
     outs = []
     for c in (c1, c2, a * c1 + b * c2):
         st, x = attempt(A, (c[:, None] * Jt).to(dtype), seed)
@@ -86,6 +105,12 @@ def one_upgrad(ctx: Ctx):
     c2 = torch.tensor([10.0 ** rng.uniform(-1, 1) for _ in range(m)], dtype=torch.float64)
     a, b = 10.0 ** rng.uniform(-0.5, 0.5), 10.0 ** rng.uniform(-0.5, 0.5)
     pv = rng.choice([None, [rng.randint(1, 4) for _ in range(m)]])
+    if rng.random() < 0.4:
+        # small gradients: the three largest singular values sit between norm_eps (1e-3 below) and a few hundred times
+        # it — all ABOVE the normalisation threshold, so the Gramian must be used in all three calls
+        smin = min(float(torch.linalg.svdvals(c[:, None] * Jt)[0]) for c in (c1, c2, a * c1 + b * c2))
+        Jt = Jt * (10.0 ** rng.uniform(-2.7, -1.7) / smin)
+        ctx.count("upgrad_small_gradients")
     ladder = [1e-2, 1e-4, 1e-6, 1e-8]
     ratios = []
     pd = rng.choice([torch.float64, torch.int64, torch.int64, torch.float32, torch.float16])   # small integers: exact in each
